@@ -1,6 +1,7 @@
 import UsualProofs.C20.Progress
 import UsualProofs.C20.Safety
 import UsualProofs.C20.Exec
+import UsualProofs.C20.Trace
 /-! # C20 — the compat getaddrinfo_a completes every request exactly once under any schedule
 
 Model: `Usual.C20` (lean/Usual/C20/Gaia.lean), the statements of the repaired usual/netdb.c as a
@@ -227,6 +228,29 @@ theorem one_context {ga : Nat → Int} (s : S) (h : Reach Cfg.fixed ga s) : s.nc
   rw [(reach_inv h).c_n]; split <;> omega
 
 example : stA.nctx = 1 := by decide +kernel
+
+/-! ## the tie: what an accepted trace means -/
+
+/-- Every model state the trace validator (`Usual.C20.feed`, run by drv_c20 on the event traces of
+    the real netdb.c) ever inspects is a reachable state of the model — the validator can only
+    advance through `Walk.step`, i.e. through enabled `Step`s — so each theorem above holds of it.
+    What is NOT proved: that the logged events are all the shared-memory effects of the C code
+    (sampled schedules, C memory model: see the trusted base). -/
+theorem validated_state_reachable {ga : Nat → Int} (v : V ga) :
+    Reach Cfg.fixed ga v.m.s ∧ (∀ b j, v.m.s.resolved b j ≤ 1) ∧ (∀ b, v.m.s.notified b ≤ 1) ∧
+    v.m.s.badRead = false :=
+  ⟨(Walk.reach v.m), (no_loss_no_dup _ (Walk.reach v.m)).1, fun b => (notify_once_after_all _ (Walk.reach v.m) b).1,
+   (no_loss_no_dup _ (Walk.reach v.m)).2.1⟩
+
+-- a concrete trace fragment (the events of harness/C20/h.c for one GAI_WAIT batch of two items
+-- with a SIGEV_THREAD callback) is accepted, and a notification before the last result is not
+example : accepts gaEx [.begin 1 100 2 .wait .thread [0, 2], .gacall (.s 1) 100 0 0, .garet (.s 1) 100 0 0,
+    .gacall (.s 1) 100 1 2, .garet (.s 1) 100 1 (-2), .notify (.s 1) 100 ['D', 'D'],
+    .ret 1 100 0 ['D', 'D'], .final 1 100 0 0 1, .final 1 100 1 (-2) 1, .fin true] = true := by
+  decide +kernel
+example : accepts gaEx [.begin 1 100 2 .wait .thread [0, 2], .gacall (.s 1) 100 0 0, .garet (.s 1) 100 0 0,
+    .notify (.s 1) 100 ['D', 'N']] = false := by
+  decide +kernel
 
 /-! ## the pinned code (`Cfg.orig`) violates the property: F13 -/
 
